@@ -1,5 +1,5 @@
 (* C14 -- property theorems only.  Each is closed by [exact] of a lemma from Proofs.v. *)
-From Coq Require Import List Bool Arith ZArith.
+From Coq Require Import List Bool Arith ZArith PrimFloat.
 Import ListNotations.
 Require Import NV.C14.Model NV.C14.Gen_tables NV.C14.Proofs.
 
@@ -182,7 +182,7 @@ Theorem C14_inversion_modes :
     | IeSolve om pm => om = inv_mode m /\ Nat.land c om <> 0 /\ pm = m /\ Nat.land c m = 0
     end.
 Proof.
-  intros c m Hc Hm. pose proof (ie_ok_all c m Hc Hm) as H. unfold ie_ok, ie in H.
+  intros c m Hc Hm. pose proof (ie_ok_all Hc Hm) as H. unfold ie_ok, ie in H.
   destruct (ie_apply t_ilog t_validMode t_modeTable t_addInverse t_INVERSE_BIT c m).
   - apply andb_prop in H. destruct H as [H1 H2]. apply Nat.eqb_eq in H1.
     apply negb_true_iff in H2. apply Nat.eqb_neq in H2. auto.
